@@ -71,7 +71,7 @@ RECURSIVE EncWith(_,_,_,_,_,_)
 EncWith(g, ppube, id, m, rs, j) == IF j > Len(rs) THEN <<"none">>
                                    ELSE IF j = Len(rs) THEN Encrypt(g, ppube, id, m, BFromBE(rs[j]))
                                    ELSE IF Encrypt(g, ppube, id, m, BFromBE(rs[j]))[1] = "retry" THEN EncWith(g, ppube, id, m, rs, j+1) ELSE <<"early">>
-Enc3(e, m, x) == Stay /\ tlast' = Verdict(e, e.outcome = "ok" /\ x[1] = "ok" /\ e.ct = x[2], "encrypt." \o (IF Len(m) % 32 = 0 THEN "len%32=0" ELSE IF Len(m) < 32 THEN "short" ELSE "long"),
+Enc3(e, m, x) == Stay /\ tlast' = Verdict(e, e.outcome = "ok" /\ x[1] = "ok" /\ e.ct = x[2], "encrypt." \o (IF Len(m) % 32 = 0 THEN "len%32=0" ELSE IF Len(m) < 32 THEN "short" ELSE "long") \o (IF e.expect_retry = 1 THEN ".k1-zero" ELSE ""),
                                           IF Crash(e) THEN e.outcome ELSE IF x[1] # "ok" THEN "nonce-handling" ELSE "wrong-ciphertext")
 Enc2(e, m) == Enc3(e, m, EncWith(GPow(BFromBE(e.ke)), PpubE(BFromBE(e.ke)), e.idb, m, e.rs, 1))
 Enc1(e) == Enc2(e, MsgOf(e))
